@@ -211,13 +211,27 @@ def classify(body):
                 dl = op_local(t["discr"])
                 pruned = None
                 if si["kind"] == "bool" and dl is not None:
-                    ds = du.defs.get(dl, [])
+                    # the tested bool may be a named copy and/or a negation of the comparison (`let p = a != b; if !p`)
+                    neg, cl, n_ = False, dl, 0
+                    ds = du.defs.get(cl, [])
+                    while n_ < 6 and len(ds) == 1 and ds[0][2] == "assign" and not ds[0][3]["lhs"]["proj"]:
+                        n_ += 1
+                        rv_ = ds[0][3]["rhs"]
+                        if rv_["k"] == "use" and rv_["a"]["k"] in ("copy", "move") and not rv_["a"]["p"]["proj"]:
+                            cl = rv_["a"]["p"]["l"]
+                        elif rv_["k"] == "unop" and rv_["op"] == "Not" and rv_["a"]["k"] in ("copy", "move") and not rv_["a"]["p"]["proj"]:
+                            cl, neg = rv_["a"]["p"]["l"], not neg
+                        else:
+                            break
+                        ds = du.defs.get(cl, [])
                     if len(ds) == 1 and ds[0][2] == "assign" and ds[0][3]["rhs"]["k"] == "binop" and ds[0][3]["rhs"]["op"] in ("Eq", "Ne"):
                         rv = ds[0][3]["rhs"]
                         a, b_ = root(ds[0][0], rv["a"]), root(ds[0][0], rv["b"])
                         rel = rels.get((a, b_)) or rels.get((b_, a))
                         if rel in ("eq", "gt"):
                             val = (rel == "eq") if rv["op"] == "Eq" else (rel != "eq")
+                            if neg:
+                                val = not val
                             pruned = 1 if val else 0
                 retry_edge = None
                 if pruned is None and si["kind"] == "bool" and dl is not None and not t["discr"]["p"]["proj"]:
